@@ -135,7 +135,13 @@ pub struct ParseContext {
     pub macros: Rc<Macro>,
     // messages
     pub messages: Rc<RefCell<Vec<String>>>,
+    // number of `.include`s this text is nested in
+    pub include_depth: usize,
 }
+
+/// Deepest nesting of `.include`s that is followed; a file that includes itself (directly or
+/// through others) is reported instead of overflowing the stack.
+pub const MAX_INCLUDE_DEPTH: usize = 64;
 
 impl ParseContext {
     pub fn new(
@@ -155,6 +161,7 @@ impl ParseContext {
                 macroses: RefCell::new(hashmap! {}),
             }),
             messages: Rc::new(RefCell::new(vec![])),
+            include_depth: 0,
         }
     }
 
@@ -227,6 +234,7 @@ pub fn parse_file_internal(context: &ParseContext) -> Result<(), Error> {
         segments,
         macros,
         messages,
+        include_depth,
     } = context.clone();
     let include_paths = include_paths.borrow_mut();
 
@@ -280,6 +288,7 @@ pub fn parse_file_internal(context: &ParseContext) -> Result<(), Error> {
         segments,
         macros,
         messages,
+        include_depth,
     };
 
     parse(source.as_str(), &file_context)?;
